@@ -187,7 +187,8 @@ def run_shard(spec):
     root = tempfile.mkdtemp(prefix="c03-", dir=os.getcwd())
     try:
         for i in range(spec["count"]):
-            prog, ref, info = tight.gen_program(rnd, opts={"include": False, "insert": False})
+            # the output charset decides how many bytes a string has (and so where everything after it lies), whenever it is evaluated
+            prog, ref, info = tight.gen_program(rnd, opts={"include": False, "insert": False}, charset=rnd.choice(["bk", "bk", "utf-8", "utf-8", "koi8-r", "cp1251", "cp866"]))
             # an exported name of the same spelling in another file: the file's own later definition must win
             if len(prog.files) > 1 and rnd.random() < 0.5:
                 prog.files[0].stmts.append(apm.assign("samename", apm.num(rnd.randrange(1, 100)), extern=True))
